@@ -101,6 +101,15 @@ run_h2(struct mmgr *mm, uint64_t seed, struct item **items, int slot0, struct tr
                 g.pl = PL_PLAIN;
                 g.dir = IMB_DIR_ENCRYPT;
                 g.len = 16 * (1 + (long) rng_below(&r, 8));
+                if (rng_below(&r, 3)) {
+                        /* one suite per out-of-order manager of the library, with the direction that parks */
+                        const struct suite *ocs, *ohs;
+                        int odir;
+                        item_pick_ooo(&r, &ocs, &ohs, &odir);
+                        g.dir = odir;
+                        item_gen(items[i], ocs, ohs, &r, &g, mm);
+                        goto generated;
+                }
                 if (rng_below(&r, 4) == 0) {
                         int ih2;
                         const struct suite *s2 = pick_parking(&r, &ih2);
@@ -183,7 +192,14 @@ eng_reinit(void)
                         g.slot = i;
                         g.pl = PL_PLAIN;
                         g.len = 16 * (1 + (long) rng_below(&r, 20));
-                        item_gen(A[i], is_hash ? NULL : s, is_hash ? s : NULL, &r, &g, mm);
+                        if (rng_below(&r, 3)) {
+                                const struct suite *ocs, *ohs;
+                                int odir;
+                                item_pick_ooo(&r, &ocs, &ohs, &odir);
+                                g.dir = odir;
+                                item_gen(A[i], ocs, ohs, &r, &g, mm);
+                        } else
+                                item_gen(A[i], is_hash ? NULL : s, is_hash ? s : NULL, &r, &g, mm);
                         if (burst_h1) {
                                 IMB_JOB *bj[1];
                                 if (mm_get_next_burst(mm, 1, bj) != 1)
